@@ -2,5 +2,6 @@ SPECIFICATION Spec
 CONSTANTS NMin = 3
           NMax = 8
           TailNMax = 32
-INVARIANT TailOk PairsOk ShiftOk
+          LatN = {9, 12, 16, 21, 27, 31, 32}
+INVARIANT TailOk PairsOk ShiftOk LatOk
 CHECK_DEADLOCK FALSE
